@@ -69,19 +69,20 @@ def decide_literal_type(a_literal, base_namespace=None):
         return LANG_STRING_TYPE
     elif "\"^^" not in a_literal:
         return STRING_TYPE
-    elif "xsd:" in a_literal:
-        return XSD_NAMESPACE + a_literal[a_literal.find("xsd:") + 4:]
-    elif "rdf:" in a_literal:
-        return RDF_SYNTAX_NAMESPACE + a_literal[a_literal.find("rdf:")+ 4:]
-    elif "dt:" in a_literal:
-        return DT_NAMESPACE + a_literal[a_literal.find("dt:")+ 3:]
-    elif "geo:" in a_literal:
-        return OPENGIS_NAMESPACE + a_literal[a_literal.find("geo:") + 4:]
-    elif XSD_NAMESPACE in a_literal or RDF_SYNTAX_NAMESPACE in a_literal \
-            or DT_NAMESPACE in a_literal or OPENGIS_NAMESPACE in a_literal:
-        return a_literal[a_literal.find("\"^^")+4:-1]
+    a_type = a_literal[a_literal.rfind("\"^^") + 3:]  # The datatype. The text of the literal may mention a prefix too
+    if "xsd:" in a_type:
+        return XSD_NAMESPACE + a_type[a_type.find("xsd:") + 4:]
+    elif "rdf:" in a_type:
+        return RDF_SYNTAX_NAMESPACE + a_type[a_type.find("rdf:") + 4:]
+    elif "dt:" in a_type:
+        return DT_NAMESPACE + a_type[a_type.find("dt:") + 3:]
+    elif "geo:" in a_type:
+        return OPENGIS_NAMESPACE + a_type[a_type.find("geo:") + 4:]
+    elif XSD_NAMESPACE in a_type or RDF_SYNTAX_NAMESPACE in a_type \
+            or DT_NAMESPACE in a_type or OPENGIS_NAMESPACE in a_type:
+        return a_type[1:-1]
     elif a_literal.strip().endswith(">"):
-        candidate_type = a_literal[a_literal.find("\"^^") + 4:-1]  # plain uri, no corners
+        candidate_type = a_type[1:-1]  # plain uri, no corners
         if base_namespace is not None and not candidate_type.startswith("http"):
             return base_namespace + candidate_type
         return candidate_type
